@@ -46,6 +46,24 @@ def gen(rng, n):
             extra += scen.entry('/real2', nm, '/home/u/' + nm, '2001-01-01T00:00:00', rng.choice(['f', 'd']))
             argv_td = ['--trash-dir', '/lnk/../real2']
             real_tds = ['/deep/real2']
+        if not argv_td and rng.random() < 0.15:
+            # the home trash's info/ is a symbolic link to a directory elsewhere (a trash whose bookkeeping was moved to another disk):
+            # the payload of info/<n>.trashinfo is <trash dir>/files/<n>, not 'info/../files/<n>' - next to the link's target sits a
+            # look-alike files/ directory that must stay as it is
+            hi = lay.home_trash + '/info'
+            moved = []
+            for nd in nodes:
+                if nd[1] == hi:
+                    continue
+                if nd[1].startswith(hi + '/'):
+                    nd = [nd[0], '/elsewhere/info' + nd[1][len(hi):]] + list(nd[2:])
+                    moved.append(os.path.basename(nd[1]))
+                extra.append(nd)
+            nodes = []
+            extra += [['d', '/elsewhere/info', 0o700], ['l', hi, '/elsewhere/info'], ['d', '/elsewhere/files', 0o700]]
+            for nm in moved:
+                if nm.endswith('.trashinfo'):
+                    extra.append(['f', '/elsewhere/files/' + nm[:-len('.trashinfo')], 'look-alike'])
         cmd = rng.choice(['empty', 'empty', 'rm'])
         step = {'cmd': cmd, 'argv': [], 'listdir': rng.choice(['sorted', 'reverse', rng.randint(1, 99)])}
         if cmd == 'empty':
@@ -66,6 +84,10 @@ def gen(rng, n):
 
 def inside_purge_area(p, tds):
     for td in tds:
+        if isinstance(td, tuple):                  # (physical files/ directory, physical info/ directory)
+            if any(p.startswith(d + '/') for d in td):
+                return True
+            continue
         for sub in ('/files/', '/info/'):
             if p.startswith(td + sub):
                 return True
@@ -81,7 +103,7 @@ def judge(run, scn, meta, res, section='state'):
     after = o['after']
     case = {'scenario': scn, 'meta': meta}
     run.count(section)
-    tds = [engine.kresolve(before, t + '/x')[:-2] for t in meta.get('tds') or engine.trash_dirs_in(before)]
+    tds = [(engine.kresolve(before, t + '/files/x')[:-2], engine.kresolve(before, t + '/info/x')[:-2]) for t in meta.get('tds') or engine.trash_dirs_in(before)]
     ch = [p for p in engine.changed_paths(before, after, ignore_dir_mtime=False) if not inside_purge_area(p, tds)]
     # the files/ and info/ directories themselves may get a new mtime when an entry is unlinked
     ch = [p for p in ch if not (p.endswith('/files') or p.endswith('/info')) or before.get(p, ('',))[:3] != after.get(p, ('',))[:3]]
